@@ -139,8 +139,6 @@ INSTANCE_FACTS = [
      "the CamelWord pattern is the language-reference regex"),
     ("inst_shouty_re", "sym_res_eqb shouty_sym code_table [re_shouty]",
      "the ShoutyWord pattern is the language-reference regex"),
-    ("inst_number_res", "sym_res_eqb number_sym code_table re_numbers",
-     "the Number patterns are the eight reference formats"),
 ]
 
 
@@ -150,14 +148,14 @@ def write_instance(ctx, gen_dir):
     facts = os.path.join(gen_dir, "LexFacts_C10.v")
     with open(facts, "w") as f:
         f.write("From Coq Require Import NArith List Bool.\nImport ListNotations.\n")
-        f.write("Require Import EmbossV.Lex.Regex EmbossV.Lex.Tokenizer EmbossV.Lex.Exec EmbossV.Lex.Instance.\n")
+        f.write("Require Import EmbossV.Lex.Regex EmbossV.Lex.Tokenizer EmbossV.Lex.Spec EmbossV.Lex.Class EmbossV.Lex.Exec EmbossV.Lex.Instance.\n")
         f.write("Require Import EmbossVGen.%s.\n" % GEN_TABLE)
         f.write("Definition facts : list bool := [%s].\n" % "; ".join("(%s)" % t for _, t, _ in INSTANCE_FACTS))
         f.write('Redirect "%s" Eval vm_compute in facts.\n' % os.path.join(gen_dir, "LexFacts_C10"))
     inst = os.path.join(gen_dir, "LexInstance_C10.v")
     src = open(os.path.join(fw.THEORIES, "Lex", "InstanceTemplate.v.in")).read()
     with open(inst, "w") as f:
-        f.write(src.replace("@TABLE@", "EmbossVGen." + GEN_TABLE))
+        f.write(src.replace("@TABLE@", "EmbossVGen." + GEN_TABLE).replace("@NUMBER_FACTS@", ""))
     return facts, inst
 
 
